@@ -76,6 +76,33 @@ func nilMessageNote(r *runner, key *hashcom.CommitmentKey, wit hashcom.Witness) 
 		e1 != nil, e1 == nil && e2 == nil && c1.Equal(c2), o != nil, o2 == nil)
 }
 
+// hashcomAliasCase: two messages A, B sliced out of one buffer (A has spare capacity that holds
+// B).  Committing to / opening A must not disturb B: B's untouched honest opening still verifies
+// and the caller's buffer is unchanged.
+func hashcomAliasCase(r *runner, i int) {
+	rng := vh.NewRng(r.a.Seed, "C18", "hashcom-alias", i)
+	key, err := hashcom.SampleCommitmentKey(rng)
+	must(err)
+	la, lb := rng.Intn(40), 32+rng.Intn(40)
+	rec := rng.Bytes(la + lb + rng.Intn(8))
+	orig := append([]byte{}, rec...)
+	A, B := rec[:la], rec[la:la+lb]
+	cse := fmt.Sprintf("hashcom-alias %d | key=%s record=%s A=record[:%d] B=record[%d:%d]", i, vh.Hex(key[:]), vh.Hex(orig), la, la, la+lb)
+	r.res.Count("hashcom-alias", cse, true)
+	cB, wB, e1 := commitments.Commit(key, hashcom.Message(B), rng)
+	cA, wA, e2 := commitments.Commit(key, hashcom.Message(A), rng)
+	if e1 != nil || e2 != nil {
+		r.prop(fmt.Sprintf("HA%d", i), "hashcom-commit-refused", "Commit refused a well-formed message", cse, "hashcom_open_iff")
+		return
+	}
+	oA := verdict(func() error { return key.Open(cA, A, wA) })
+	oB := verdict(func() error { return key.Open(cB, B, wB) })
+	oB2 := hashOpen(key[:], cB[:], orig[la:la+lb], wB[:])
+	if oA != "1" || oB != "1" || oB2 != "1" || !bytes.Equal(rec, orig) {
+		r.prop(fmt.Sprintf("HA%d", i), "hashcom-aliasing", fmt.Sprintf("after committing to / opening A: Open(A)=%s Open(B)=%s Open(B, original bytes)=%s, caller buffer unchanged=%v", oA, oB, oB2, bytes.Equal(rec, orig)), cse, "hashcom_open_iff (honest opening verifies)")
+	}
+}
+
 func hashcomCase(r *runner, i int) {
 	rng := vh.NewRng(r.a.Seed, "C18", "hashcom", i)
 	key, err := hashcom.SampleCommitmentKey(rng)
